@@ -545,6 +545,19 @@ class TypeMap:
             if m and m.group(1) in ASSOC_ITERS:
                 inner = self.c(parse(first_targ(m.group(2))))
                 return inner + ("*" if m.group(3) != "value_type" else "")
+        if last in ("value_type", "mapped_type", "key_type") and "<" in name:
+            # member types of standard containers / allocator traits printed without a desugared form:
+            # __alloc_traits<allocator<T>, T>::value_type = T; (unordered_)map<K, V>::key_type = K, ::mapped_type = V
+            m = re.match(r"(?:.*?::)?([A-Za-z_]\w*)<(.*)>::(value_type|mapped_type|key_type)$", name)
+            if m:
+                a0 = first_targ(m.group(2))
+                rest = m.group(2)[len(a0) + 1:].strip()
+                if m.group(1) == "__alloc_traits" and m.group(3) == "value_type" and rest:
+                    return self.c(parse(first_targ(rest)))
+                if m.group(1) in ("map", "unordered_map", "multimap") and m.group(3) == "key_type":
+                    return self.c(parse(a0))
+                if m.group(1) in ("map", "unordered_map", "multimap") and m.group(3) == "mapped_type" and rest:
+                    return self.c(parse(first_targ(rest)))
         if last in ("value_type", "pointer", "const_pointer") and "<" in name:
             # member types of std::array / the sequence containers: the element type (first template argument) / pointer to it
             m = re.match(r"(?:.*?::)?([A-Za-z_]\w*)<(.*)>::(value_type|pointer|const_pointer)$", name)
